@@ -1,8 +1,1347 @@
 package main
 
-import "verif/harness/vh"
+// The black-box crash search (case family "crash"): a property monitor, no
+// model. The real sharded Pebble LogDB (plain and batched entry format) and
+// Tan (regular and log multiplexed) run a small workload over the strict
+// in-memory file system of github.com/lni/vfs behind powerFS (crashfs.go). The
+// power is cut when a chosen file-system operation is about to execute; the
+// store is closed, everything that was not fsynced is discarded, the store is
+// reopened and read back completely. What is readable must be, per replica,
+// the reference log after the acknowledged operations or after the
+// acknowledged operations plus the interrupted one.
+//
+// Case line:
+//
+//	<id> crash <kind> <mlfs> <k> | op ; op ; ...
+//
+// kind: plain | batched | tan | tanmux; mlfs: MaxLogFileSize of the tan kinds
+// (0 = default); k: the 0-based index of the counted FS operation at which the
+// power goes off (a k behind the workload cuts the power right after the last
+// operation), `all` = every crash point 0..N of the workload (N measured by a
+// fault-free run first) or `none` = fault-free run, clean close, reopen,
+// compare. The operations use the syntax of ops.go; queries and operations
+// that are outside the contract in the current reference state are skipped, so
+// every sub-sequence of a case is a case.
 
-// placeholder, replaced by the black-box crash search
-func genCrashCases(r *vh.Rand, tier string, n int) []string { return nil }
+import (
+	"encoding/binary"
+	"errors"
+	"fmt"
+	"os"
+	"sort"
+	"strconv"
+	"strings"
+	"sync"
+	"time"
 
-func runCrashLines(lines []string, tier string, obs *vh.LineWriter, st *vh.Stats) {}
+	"github.com/lni/dragonboat/v4/raftio"
+	pb "github.com/lni/dragonboat/v4/raftpb"
+	hooks "github.com/lni/dragonboat/v4/verifhooks/c10"
+	gvfs "github.com/lni/vfs"
+	"verif/harness/vh"
+)
+
+const (
+	crashDir     = "/c10"
+	crashWorkers = 12
+	crashRunMax  = 120 * time.Second // watchdog of one run
+)
+
+// C10_CRASH_DEBUG=1: every run prints its FS operation trace and the disk image
+// after the crash to stderr (use with a single case).
+var crashDebug = os.Getenv("C10_CRASH_DEBUG") != ""
+
+var crashKinds = []string{"plain", "batched", "tan", "tanmux"}
+
+func isTanKind(kind string) bool { return kind == "tan" || kind == "tanmux" }
+
+// ---------------------------------------------------------------------------
+// case lines
+
+type crashCase struct {
+	id   string
+	kind string
+	mlfs int64
+	k    string // number | all | none
+	ops  []op
+	line string
+	key  string // the case text without the id
+}
+
+func parseCrashCase(line string) (crashCase, bool) {
+	head, body, ok := strings.Cut(line, " | ")
+	if !ok {
+		head, body = strings.TrimSuffix(strings.TrimSpace(line), " |"), ""
+	}
+	hf := strings.Fields(head)
+	if len(hf) != 5 || hf[1] != "crash" {
+		return crashCase{}, false
+	}
+	c := crashCase{id: hf[0], kind: hf[2], k: hf[4], line: line}
+	c.key = strings.TrimSpace(strings.TrimPrefix(line, hf[0]))
+	known := false
+	for _, k := range crashKinds {
+		known = known || k == c.kind
+	}
+	if !known {
+		return crashCase{}, false
+	}
+	m, err := strconv.ParseInt(hf[3], 10, 64)
+	if err != nil || m < 0 {
+		return crashCase{}, false
+	}
+	c.mlfs = m
+	if c.k != "all" && c.k != "none" {
+		if v, err := strconv.ParseUint(c.k, 10, 31); err != nil || v > 1<<30 {
+			return crashCase{}, false
+		}
+	}
+	for _, t := range strings.Split(body, " ; ") {
+		if strings.TrimSpace(t) == "" {
+			continue
+		}
+		c.ops = append(c.ops, parseOp(t))
+	}
+	return c, true
+}
+
+func crashLine(id, kind string, mlfs int64, k string, ops []op) string {
+	var s []string
+	for _, o := range ops {
+		s = append(s, o.String())
+	}
+	return fmt.Sprintf("%s crash %s %d %s | %s", id, kind, mlfs, k, strings.Join(s, " ; "))
+}
+
+// ---------------------------------------------------------------------------
+// driving one real store through raftio.ILogDB (after cmd/c09/store.go)
+
+type cstore struct {
+	kind string
+	mlfs int64
+	fs   *powerFS
+	db   raftio.ILogDB
+}
+
+type noFault struct{}
+
+func (noFault) MaybeError(gvfs.Op) error { return nil }
+
+// open returns "" or what went wrong (an error or a panic).
+func (s *cstore) open() (what string) {
+	var err error
+	p := vh.Catch(func() {
+		// newDefaultKVStore accepts the OS file system, *vfs.MemFS and *vfs.ErrorFS
+		// only: powerFS goes in dressed as an ErrorFS that never injects an error
+		fs := hooks.FS(gvfs.Wrap(s.fs, noFault{}))
+		switch s.kind {
+		case "plain":
+			s.db, err = hooks.OpenPebble(fs, crashDir, 2, false)
+		case "batched":
+			s.db, err = hooks.OpenPebble(fs, crashDir, 2, true)
+		case "tan":
+			s.db, err = hooks.OpenTan(fs, crashDir, false)
+		case "tanmux":
+			s.db, err = hooks.OpenTan(fs, crashDir, true)
+		default:
+			err = fmt.Errorf("unknown store kind %s", s.kind)
+		}
+		if err != nil {
+			s.db = nil
+			return
+		}
+		if isTanKind(s.kind) {
+			for _, id := range nodeIDs {
+				if err = hooks.TanPreopen(s.db, id.Shard, id.Replica, s.mlfs); err != nil {
+					return
+				}
+			}
+		}
+	})
+	if p != "" {
+		return "panic: " + p
+	}
+	if err != nil {
+		return "error: " + err.Error()
+	}
+	return ""
+}
+
+func (s *cstore) close() (what string) {
+	if s.db == nil {
+		return ""
+	}
+	db := s.db
+	s.db = nil
+	var err error
+	if p := vh.Catch(func() { err = db.Close() }); p != "" {
+		return "panic: " + p
+	}
+	if err != nil {
+		return "error: " + err.Error()
+	}
+	return ""
+}
+
+func (s *cstore) reopen() error {
+	if w := s.close(); w != "" {
+		return errors.New("close: " + w)
+	}
+	if w := s.open(); w != "" {
+		return errors.New("open: " + w)
+	}
+	return nil
+}
+
+func crashCmd(tag uint64, n uint64) []byte {
+	b := make([]byte, n)
+	binary.BigEndian.PutUint64(b, tag)
+	for i := 8; i < len(b); i++ {
+		b[i] = byte(tag) + byte(i)
+	}
+	return b
+}
+
+func crashSnapshot(n int, ss snap) pb.Snapshot {
+	return pb.Snapshot{Index: ss.Index, Term: ss.Term, FileSize: ss.Tag, ShardID: nodeIDs[n].Shard,
+		Type: pb.RegularStateMachine, Filepath: fmt.Sprintf("snapshot-%d-%d", ss.Index, ss.Tag)}
+}
+
+func crashUpdate(u update) pb.Update {
+	id := nodeIDs[u.N]
+	r := pb.Update{ShardID: id.Shard, ReplicaID: id.Replica,
+		State: pb.State{Term: u.St.Term, Vote: u.St.Vote, Commit: u.St.Commit}}
+	if u.Ss.Index > 0 {
+		r.Snapshot = crashSnapshot(u.N, u.Ss)
+	}
+	for _, e := range u.Ents {
+		r.EntriesToSave = append(r.EntriesToSave,
+			pb.Entry{Index: e.Index, Term: e.Term, Key: e.Tag, Cmd: crashCmd(e.Tag, e.Len)})
+	}
+	return r
+}
+
+// exec runs a mutating operation; the result is "ok", "err" or "panic".
+func (s *cstore) exec(o op) (res string, detail string) {
+	var err error
+	p := vh.Catch(func() {
+		if s.db == nil {
+			err = errors.New("store is not open")
+			return
+		}
+		switch o.Kind {
+		case "SAVE":
+			var uds []pb.Update
+			for _, u := range o.Ups {
+				uds = append(uds, crashUpdate(u))
+			}
+			// worker id = the engine's step worker of the first shard (1-based)
+			err = s.db.SaveRaftState(uds, nodeIDs[o.Ups[0].N].Shard%16+1)
+		case "SNAP":
+			id := nodeIDs[o.N]
+			err = s.db.SaveSnapshots([]pb.Update{{ShardID: id.Shard, ReplicaID: id.Replica, Snapshot: crashSnapshot(o.N, o.Ss)}})
+		case "REMTO":
+			id := nodeIDs[o.N]
+			err = s.db.RemoveEntriesTo(id.Shard, id.Replica, o.A)
+			if err == nil {
+				var ch <-chan struct{}
+				ch, err = s.db.CompactEntriesTo(id.Shard, id.Replica, o.A)
+				if err == nil && ch != nil {
+					// a dead store must not hang the harness
+					wait := 20 * time.Second
+					if s.fs.isOff() {
+						wait = 2 * time.Second
+					}
+					select {
+					case <-ch:
+					case <-time.After(wait):
+						if !s.fs.isOff() {
+							err = errors.New("compaction did not finish within 20s")
+						}
+					}
+				}
+			}
+		case "REMNODE":
+			id := nodeIDs[o.N]
+			err = s.db.RemoveNodeData(id.Shard, id.Replica)
+		case "IMPORT":
+			if err = s.reopen(); err != nil {
+				return
+			}
+			id := nodeIDs[o.N]
+			if err = s.db.ImportSnapshot(crashSnapshot(o.N, o.Ss), id.Replica); err != nil {
+				return
+			}
+			err = s.reopen()
+		case "REOPEN":
+			err = s.reopen()
+		default:
+			err = errors.New("not a mutating operation")
+		}
+	})
+	if p != "" {
+		return "panic", p
+	}
+	if err != nil {
+		return "err", err.Error()
+	}
+	return "ok", ""
+}
+
+func crashReadEnt(e pb.Entry) (ent, bool) {
+	r := ent{Index: e.Index, Term: e.Term, Len: uint64(len(e.Cmd))}
+	if len(e.Cmd) < 8 {
+		return r, false
+	}
+	r.Tag = binary.BigEndian.Uint64(e.Cmd)
+	want := crashCmd(r.Tag, r.Len)
+	ok := e.Key == r.Tag
+	for i := range want {
+		if want[i] != e.Cmd[i] {
+			ok = false
+			break
+		}
+	}
+	return r, ok
+}
+
+// query returns the canonical observation of a query operation (ReadRaftState
+// normalised the way LogReader.SetRange consumes it, see cmd/c09/store.go).
+func (s *cstore) query(o op) string {
+	id := nodeIDs[o.N]
+	if s.db == nil {
+		return "closed"
+	}
+	switch o.Kind {
+	case "Q":
+		var es []pb.Entry
+		var size uint64
+		var err error
+		p := vh.Catch(func() {
+			es, size, err = s.db.IterateEntries(nil, 0, id.Shard, id.Replica, o.A, o.B, o.C)
+		})
+		if p != "" {
+			return "panic(" + p + ")"
+		}
+		if err != nil {
+			return "err(" + err.Error() + ")"
+		}
+		var out []ent
+		bad := ""
+		for _, e := range es {
+			r, ok := crashReadEnt(e)
+			if !ok {
+				bad = " corrupt-payload"
+			}
+			out = append(out, r)
+		}
+		return fmt.Sprintf("%s %d%s", showEnts(out), size, bad)
+	case "RRS":
+		var rs raftio.RaftState
+		var err error
+		p := vh.Catch(func() { rs, err = s.db.ReadRaftState(id.Shard, id.Replica, o.A) })
+		if p != "" {
+			return "panic(" + p + ")"
+		}
+		if errors.Is(err, raftio.ErrNoSavedLog) {
+			return "nostate"
+		}
+		if err != nil {
+			return "err(" + err.Error() + ")"
+		}
+		st := fmt.Sprintf("st=%d,%d,%d", rs.State.Term, rs.State.Vote, rs.State.Commit)
+		first, count := rs.FirstIndex, rs.EntryCount
+		if count > 0 && first < o.A+1 {
+			cut := o.A + 1 - first
+			if cut >= count {
+				count = 0
+			} else {
+				first, count = o.A+1, count-cut
+			}
+		}
+		if count == 0 {
+			return st + " count=0"
+		}
+		return fmt.Sprintf("%s first=%d count=%d", st, first, count)
+	case "GS":
+		var ss pb.Snapshot
+		var err error
+		p := vh.Catch(func() { ss, err = s.db.GetSnapshot(id.Shard, id.Replica) })
+		if p != "" {
+			return "panic(" + p + ")"
+		}
+		if err != nil {
+			return "err(" + err.Error() + ")"
+		}
+		if pb.IsEmptySnapshot(ss) {
+			return "none"
+		}
+		r := fmt.Sprintf("%d %d %d", ss.Index, ss.Term, ss.FileSize)
+		if ss.Filepath != fmt.Sprintf("snapshot-%d-%d", ss.Index, ss.FileSize) || ss.ShardID != id.Shard {
+			r += " corrupt-record"
+		}
+		return r
+	}
+	return "?"
+}
+
+// ---------------------------------------------------------------------------
+// what tan promises about the hard state: a SaveRaftState is fsynced only when
+// it carries entries or a snapshot or changes Term/Vote (db.write in
+// internal/tan/db.go); an acknowledged update that only moves Commit may be
+// lost. hsHist keeps, per replica, the hard states written since (and
+// including) the last save of that replica that had to be fsynced.
+
+type hsHist [numNodes][]string
+
+func stString(st *hstate) string {
+	if st == nil {
+		return "nostate"
+	}
+	return fmt.Sprintf("st=%d,%d,%d", st.Term, st.Vote, st.Commit)
+}
+
+// apply accounts for o, before is the reference state o is applied to.
+func (h *hsHist) apply(before *ref, o op) {
+	after := *before
+	after.apply(o)
+	set := func(n int) { h[n] = []string{stString(after.nodes[n].st)} }
+	switch o.Kind {
+	case "SAVE":
+		for _, u := range o.Ups {
+			prev := hstate{}
+			if p := before.nodes[u.N].st; p != nil {
+				prev = *p
+			}
+			switch {
+			case u.Ss.Index > 0 || len(u.Ents) > 0:
+				set(u.N)
+			case u.St.empty():
+			case u.St.Term != prev.Term || u.St.Vote != prev.Vote || before.nodes[u.N].st == nil:
+				set(u.N)
+			default:
+				h[u.N] = append(append([]string{}, h[u.N]...), stString(after.nodes[u.N].st))
+			}
+		}
+	case "SNAP", "REMTO", "REMNODE", "IMPORT":
+		set(o.N)
+	}
+}
+
+func newHsHist() hsHist {
+	var h hsHist
+	for n := range h {
+		h[n] = []string{"nostate"}
+	}
+	return h
+}
+
+// ---------------------------------------------------------------------------
+// read everything back and compare with a candidate reference state
+
+type nodeObs struct{ gs, rrs, q string }
+
+func (o nodeObs) String() string { return fmt.Sprintf("GS=%s RRS=%s Q=%s", o.gs, o.rrs, o.q) }
+
+func fullRange(n int, cand *ref) (rrs op, q op) {
+	nd := &cand.nodes[n]
+	return op{Kind: "RRS", N: n, A: nd.marker},
+		op{Kind: "Q", N: n, A: nd.marker + 1, B: nd.last() + 1, C: 1 << 62}
+}
+
+// observe reads node n back with the arguments that belong to the candidate.
+// With want set, ReadRaftState is only asked when the snapshot record and the
+// entries already agree with the candidate: its argument is the candidate's
+// marker, for a store that is in the other candidate's state the call can be
+// outside the contract (the plain format then panics by design).
+func (s *cstore) observe(n int, cand *ref, want *nodeObs) nodeObs {
+	rrs, q := fullRange(n, cand)
+	o := nodeObs{gs: s.query(op{Kind: "GS", N: n}), q: s.query(q), rrs: "(not asked)"}
+	if want == nil || (o.gs == want.gs && o.q == want.q) {
+		o.rrs = s.query(rrs)
+	}
+	return o
+}
+
+func expected(n int, cand *ref) nodeObs {
+	rrs, q := fullRange(n, cand)
+	return nodeObs{gs: cand.query(op{Kind: "GS", N: n}), rrs: cand.query(rrs), q: cand.query(q)}
+}
+
+func splitRRS(s string) (st string, rest string) {
+	st, rest, _ = strings.Cut(s, " ")
+	if rest == "" {
+		rest = "count=0"
+	}
+	return st, rest
+}
+
+// sameObs: allowed == nil is the exact comparison; otherwise the hard state may
+// be any member of allowed (tan).
+func sameObs(got, want nodeObs, allowed []string) bool {
+	if got.gs != want.gs || got.q != want.q {
+		return false
+	}
+	if got.rrs == want.rrs {
+		return true
+	}
+	if allowed == nil {
+		return false
+	}
+	gst, grest := splitRRS(got.rrs)
+	_, wrest := splitRRS(want.rrs)
+	if grest != wrest {
+		return false
+	}
+	for _, a := range allowed {
+		if a == gst {
+			return true
+		}
+	}
+	return false
+}
+
+// selfConsistent checks through the read back itself that the log is gap-free
+// and ends at its recorded end: the entries announced by ReadRaftState(marker)
+// are all there, contiguous.
+func (s *cstore) selfConsistent(n int, marker uint64) string {
+	if s.db == nil {
+		return ""
+	}
+	id := nodeIDs[n]
+	var rs raftio.RaftState
+	var err error
+	if p := vh.Catch(func() { rs, err = s.db.ReadRaftState(id.Shard, id.Replica, marker) }); p != "" {
+		return "ReadRaftState panics: " + p
+	}
+	if err != nil || rs.EntryCount == 0 {
+		return ""
+	}
+	first, count := rs.FirstIndex, rs.EntryCount
+	if first < marker+1 {
+		cut := marker + 1 - first
+		if cut >= count {
+			return ""
+		}
+		first, count = marker+1, count-cut
+	}
+	var es []pb.Entry
+	if p := vh.Catch(func() {
+		es, _, err = s.db.IterateEntries(nil, 0, id.Shard, id.Replica, first, first+count, 1<<62)
+	}); p != "" {
+		return fmt.Sprintf("IterateEntries [%d,%d) panics: %s", first, first+count, p)
+	}
+	if err != nil {
+		return fmt.Sprintf("IterateEntries [%d,%d) fails: %v", first, first+count, err)
+	}
+	if uint64(len(es)) != count {
+		return fmt.Sprintf("ReadRaftState(%d) announces first=%d count=%d but IterateEntries returns %d entries", marker, first, count, len(es))
+	}
+	for i, e := range es {
+		if e.Index != first+uint64(i) {
+			return fmt.Sprintf("gap in the recovered log: position %d of [%d,%d) holds index %d", i, first, first+count, e.Index)
+		}
+	}
+	return ""
+}
+
+// ---------------------------------------------------------------------------
+// one run
+
+type crashRun struct {
+	viol     string // "" = the monitor found nothing
+	total    int    // counted FS operations when the workload ended / was stopped
+	openEnd  int    // counted FS operations of opening the store
+	spans    []span // executed workload operations and their FS operation ranges
+	trace    []string
+	inflight string // "open", an operation kind, "after" (cut after the workload) or "" (no cut)
+	sideA    bool   // some replica recovered to the acknowledged state only
+	sideB    bool   // some replica recovered with the interrupted operation visible
+	leaked   int
+	timing   time.Duration
+}
+
+type span struct {
+	kind       string
+	start, end int
+}
+
+func newCrashRef() *ref { return &ref{nonCmd: uint64((&pb.Entry{}).SizeUpperLimit())} }
+
+func newCrashMem() *gvfs.MemFS {
+	mem := gvfs.NewStrictMem()
+	// the data directory of the NodeHost exists (and is durable) before a log store is created
+	if err := mem.MkdirAll(crashDir, 0755); err != nil {
+		panic(err)
+	}
+	d, err := mem.OpenDir("/")
+	if err != nil {
+		panic(err)
+	}
+	_ = d.Sync()
+	_ = d.Close()
+	return mem
+}
+
+// runCrash runs the workload with the power cut at FS operation cut (cut < 0:
+// no cut at all, clean close and reopen).
+func runCrash(kind string, mlfs int64, ops []op, cut int, record bool) (res crashRun) {
+	done := make(chan crashRun, 1)
+	go func() {
+		var r crashRun
+		if p := vh.Catch(func() { r = runCrash1(kind, mlfs, ops, cut, record) }); p != "" {
+			r.viol = "harness panic: " + p
+		}
+		done <- r
+	}()
+	select {
+	case r := <-done:
+		return r
+	case <-time.After(crashRunMax):
+		return crashRun{viol: fmt.Sprintf("run hangs (no result within %v)", crashRunMax)}
+	}
+}
+
+func runCrash1(kind string, mlfs int64, ops []op, cut int, record bool) (res crashRun) {
+	t0 := time.Now()
+	defer func() { res.timing = time.Since(t0) }()
+	mem := newCrashMem()
+	fs := newPowerFS(mem, cut, record || crashDebug)
+	s := &cstore{kind: kind, mlfs: mlfs, fs: fs}
+	acked := newCrashRef()
+	hist := newHsHist()
+	var inflightOp *op
+
+	what := s.open()
+	res.openEnd = fs.counted()
+	switch {
+	case fs.isOff():
+		res.inflight = "open"
+	case what != "":
+		_ = s.close()
+		fs.kill()
+		res.viol = "cannot create the store (no fault injected): " + what
+		return res
+	}
+	if res.inflight == "" {
+		for i := range ops {
+			o := ops[i]
+			if o.bad || o.Kind == "Q" || o.Kind == "RRS" || o.Kind == "GS" || !acked.wf(o) {
+				continue
+			}
+			start := fs.counted()
+			r, detail := s.exec(o)
+			res.spans = append(res.spans, span{o.Kind, start, fs.counted()})
+			if fs.isOff() {
+				// the power went off while the operation was running: whatever it
+				// returned, it is the interrupted one
+				res.inflight = o.Kind
+				inflightOp = &o
+				break
+			}
+			if r != "ok" {
+				_ = s.close()
+				fs.kill()
+				res.viol = fmt.Sprintf("op failed without fault: %s -> %s %s", o.String(), r, detail)
+				return res
+			}
+			hist.apply(acked, o)
+			acked.apply(o)
+		}
+	}
+	if res.inflight == "" && cut >= 0 {
+		// the crash point lies behind the workload: the power goes off now
+		fs.powerOff()
+		res.inflight = "after"
+	}
+	res.total = fs.counted()
+	if record {
+		res.trace = fs.trace
+	}
+
+	// the two candidates
+	candA, histA := *acked, hist
+	candB, histB := *acked, hist
+	if inflightOp != nil {
+		histB.apply(&candA, *inflightOp)
+		candB.apply(*inflightOp)
+	}
+
+	// the process dies, the disk keeps what was fsynced
+	cw := s.close()
+	res.leaked = fs.kill()
+	if cut >= 0 {
+		mem.ResetToSyncedState()
+		mem.SetIgnoreSyncs(false)
+	} else if cw != "" {
+		res.viol = "close failed without fault: " + cw
+		return res
+	}
+	if crashDebug {
+		fmt.Fprintf(os.Stderr, "== %s mlfs=%d cut=%d inflight=%s total=%d openEnd=%d close=%q leaked=%d\n", kind, mlfs, cut, res.inflight, res.total, res.openEnd, cw, res.leaked)
+		for _, sp := range res.spans {
+			fmt.Fprintf(os.Stderr, "   op %s: fs ops [%d,%d)\n", sp.kind, sp.start, sp.end)
+		}
+		for i, t := range fs.trace {
+			fmt.Fprintf(os.Stderr, "   %4d %s\n", i, t)
+		}
+		fmt.Fprintf(os.Stderr, "== disk after the crash:\n%s\n", mem.String())
+	}
+	fs2 := newPowerFS(mem, -1, false)
+	s.fs = fs2
+	defer func() {
+		_ = s.close()
+		fs2.kill()
+	}()
+	if w := s.open(); w != "" {
+		if cut >= 0 {
+			res.viol = fmt.Sprintf("cannot reopen after crash at op %d: %s", cut, w)
+		} else {
+			res.viol = "cannot reopen after a clean close: " + w
+		}
+		return res
+	}
+
+	// compare
+	tolerant := isTanKind(kind) && cut >= 0
+	allowed := func(h *hsHist, n int) []string {
+		if !tolerant {
+			return nil
+		}
+		return h[n]
+	}
+	var matchA, matchB [numNodes]bool
+	var gotA, gotB [numNodes]nodeObs
+	allA, allB := true, true
+	for n := 0; n < numNodes; n++ {
+		wantA := expected(n, &candA)
+		gotA[n] = s.observe(n, &candA, &wantA)
+		matchA[n] = sameObs(gotA[n], wantA, allowed(&histA, n))
+		if inflightOp != nil {
+			wantB := expected(n, &candB)
+			gotB[n] = s.observe(n, &candB, &wantB)
+			matchB[n] = sameObs(gotB[n], wantB, allowed(&histB, n))
+		} else {
+			gotB[n], matchB[n] = gotA[n], matchA[n]
+		}
+		allA = allA && matchA[n]
+		allB = allB && matchB[n]
+	}
+	describe := func(n int) string {
+		gotA[n] = s.observe(n, &candA, nil)
+		if inflightOp != nil {
+			gotB[n] = s.observe(n, &candB, nil)
+		} else {
+			gotB[n] = gotA[n]
+		}
+		msg := fmt.Sprintf("node %d (shard %d replica %d): read back [%s]; after the acknowledged operations it would be [%s]",
+			n, nodeIDs[n].Shard, nodeIDs[n].Replica, gotA[n], expected(n, &candA))
+		if tolerant {
+			msg += fmt.Sprintf(" hard state in %v", histA[n])
+		}
+		if inflightOp != nil {
+			msg += fmt.Sprintf("; read back for the other candidate [%s]; with the interrupted %s visible it would be [%s]",
+				gotB[n], inflightOp.Kind, expected(n, &candB))
+			if tolerant {
+				msg += fmt.Sprintf(" hard state in %v", histB[n])
+			}
+		}
+		return msg
+	}
+	for n := 0; n < numNodes; n++ {
+		if !matchA[n] && !matchB[n] {
+			for _, m := range []uint64{candA.nodes[n].marker, candB.nodes[n].marker} {
+				if w := s.selfConsistent(n, m); w != "" {
+					res.viol = "recovered log has a gap / does not reach its recorded end: " + w + "; " + describe(n)
+					return res
+				}
+			}
+			res.viol = "recovered state is neither the acknowledged one nor the one with the interrupted operation: " + describe(n)
+			return res
+		}
+	}
+	// which side
+	cur := candA
+	if isTanKind(kind) {
+		for n := 0; n < numNodes; n++ {
+			if !matchA[n] {
+				cur.nodes[n] = candB.nodes[n]
+			}
+		}
+	} else {
+		// a SaveRaftState of the Pebble based LogDB is one atomic write batch
+		switch {
+		case allA:
+		case allB:
+			cur = candB
+		default:
+			var sides []string
+			for n := 0; n < numNodes; n++ {
+				side := "both"
+				if matchA[n] && !matchB[n] {
+					side = "acknowledged"
+				} else if matchB[n] && !matchA[n] {
+					side = "interrupted-visible"
+				}
+				sides = append(sides, fmt.Sprintf("node %d: %s", n, side))
+			}
+			res.viol = fmt.Sprintf("save not atomic across replicas: interrupted %s, %s", inflightOp.String(), strings.Join(sides, ", "))
+			return res
+		}
+	}
+	for n := 0; n < numNodes; n++ {
+		if matchA[n] && !matchB[n] {
+			res.sideA = true
+		}
+		if matchB[n] && !matchA[n] {
+			res.sideB = true
+		}
+		if w := s.selfConsistent(n, cur.nodes[n].marker); w != "" {
+			res.viol = "recovered log has a gap / does not reach its recorded end: " + w + "; " + describe(n)
+			return res
+		}
+	}
+
+	// the recovered store is still usable: the next contiguous entry of node 0
+	// with a newer term, read back
+	nd := &cur.nodes[0]
+	t := nd.lastTerm()
+	if nd.st != nil && nd.st.Term > t {
+		t = nd.st.Term
+	}
+	t++
+	next := op{Kind: "SAVE", Ups: []update{{N: 0, St: hstate{Term: t, Vote: 1, Commit: nd.marker}, I0: nd.last() + 1,
+		Ents: []ent{{Index: nd.last() + 1, Term: t, Tag: 1<<40 + uint64(cut+1), Len: 24}}}}}
+	if cur.wf(next) {
+		if r, detail := s.exec(next); r != "ok" {
+			res.viol = fmt.Sprintf("recovered store unusable: %s -> %s %s", next.String(), r, detail)
+			return res
+		}
+		cur.apply(next)
+		if got, want := s.observe(0, &cur, nil), expected(0, &cur); !sameObs(got, want, nil) {
+			res.viol = fmt.Sprintf("recovered store unusable: after %s node 0 reads back [%s], expected [%s]", next.String(), got, want)
+			return res
+		}
+	}
+	if w := s.close(); w != "" {
+		res.viol = "recovered store unusable: close: " + w
+	}
+	return res
+}
+
+// ---------------------------------------------------------------------------
+// running case lines
+
+type crashTask struct {
+	ci  int
+	cut int
+	rec bool
+	out *crashRun
+}
+
+func runCrashTasks(cases []crashCase, tasks []crashTask) {
+	ch := make(chan crashTask)
+	var wg sync.WaitGroup
+	for w := 0; w < crashWorkers; w++ {
+		wg.Add(1)
+		go func() {
+			defer wg.Done()
+			for t := range ch {
+				c := &cases[t.ci]
+				*t.out = runCrash(c.kind, c.mlfs, c.ops, t.cut, t.rec)
+			}
+		}()
+	}
+	for _, t := range tasks {
+		ch <- t
+	}
+	close(ch)
+	wg.Wait()
+}
+
+func runCrashLines(lines []string, tier string, obs *vh.LineWriter, st *vh.Stats) {
+	t0 := time.Now()
+	cases := make([]crashCase, len(lines))
+	okc := make([]bool, len(lines))
+	first := make([]crashRun, len(lines))    // none / single point / the measuring run of all
+	points := make([][]crashRun, len(lines)) // all
+	var tasks []crashTask
+	for i, l := range lines {
+		cases[i], okc[i] = parseCrashCase(l)
+		if !okc[i] {
+			continue
+		}
+		cut := -1
+		if k := cases[i].k; k != "all" && k != "none" {
+			v, _ := strconv.Atoi(k)
+			cut = v
+		}
+		tasks = append(tasks, crashTask{ci: i, cut: cut, out: &first[i]})
+	}
+	runCrashTasks(cases, tasks)
+	tasks = nil
+	for i := range cases {
+		if okc[i] && cases[i].k == "all" && first[i].viol == "" {
+			// 0..N-1 and N itself: the power cut directly after the workload
+			points[i] = make([]crashRun, first[i].total+1)
+			for k := range points[i] {
+				tasks = append(tasks, crashTask{ci: i, cut: k, out: &points[i][k]})
+			}
+		}
+	}
+	runCrashTasks(cases, tasks)
+
+	// deterministic emission in input order
+	var busy time.Duration
+	for i, l := range lines {
+		if !okc[i] {
+			f := strings.Fields(l)
+			id := "?"
+			if len(f) > 0 {
+				id = f[0]
+			}
+			obs.Printf("%s badcase\n", id)
+			continue
+		}
+		c := &cases[i]
+		st.Count("crash.kind." + c.kind)
+		st.Count("crash.k." + map[bool]string{true: c.k, false: "point"}[c.k == "all" || c.k == "none"])
+		viol := ""
+		nontrivial := false
+		account := func(r *crashRun, cut int) {
+			busy += r.timing
+			if cut >= 0 {
+				st.Count("crash.points")
+				switch r.inflight {
+				case "open":
+					st.Count("crash.during-open")
+				case "after":
+					st.Count("crash.after-workload")
+				case "":
+				default:
+					nontrivial = true
+					st.Count("crash.inflight." + r.inflight)
+				}
+				if r.viol == "" {
+					switch {
+					case r.sideA && r.sideB:
+						st.Count("crash.recovered-mixed")
+					case r.sideA:
+						st.Count("crash.recovered-acked")
+					case r.sideB:
+						st.Count("crash.recovered-inflight-visible")
+					default:
+						st.Count("crash.recovered-indistinguishable")
+					}
+				}
+			} else {
+				st.Count("crash.fault-free-runs")
+			}
+			if r.leaked > 0 {
+				st.Count("crash.close-left-files-open")
+			}
+			if r.viol != "" && viol == "" {
+				ks := "none"
+				if cut >= 0 {
+					ks = strconv.Itoa(cut)
+				}
+				infl := r.inflight
+				if infl == "" {
+					infl = "-"
+				}
+				viol = fmt.Sprintf("crash-atomicity: kind=%s k=%s inflight=%s %s", c.kind, ks, infl, r.viol)
+			}
+		}
+		switch c.k {
+		case "none":
+			account(&first[i], -1)
+		case "all":
+			account(&first[i], -1)
+			for k := range points[i] {
+				account(&points[i][k], k)
+			}
+		default:
+			v, _ := strconv.Atoi(c.k)
+			account(&first[i], v)
+		}
+		st.Case(c.key, nontrivial, l)
+		// KNOWN FINDING (findings/known.txt, tan-removal-not-durable): tan's
+		// RemoveNodeData only clears the in-memory index; after a crash the active
+		// log is replayed and the removed replica's records are back. A case that
+		// removed a replica of a tan store is reported under that name and not
+		// compared further.
+		if viol != "" && isTanKind(c.kind) {
+			for _, o := range c.ops {
+				if o.Kind == "REMNODE" {
+					st.Violation(c.id, "tan-removal-not-durable: "+viol)
+					viol = ""
+					break
+				}
+			}
+		}
+		if viol == "" {
+			obs.Printf("%s crash ok\n", c.id)
+		} else {
+			obs.Printf("%s crash VIOLATION\n", c.id)
+			if len(viol) > 3000 {
+				viol = viol[:3000] + "..."
+			}
+			st.Violation(c.id, viol)
+		}
+	}
+	if len(lines) > 0 {
+		st.Notes["crash.timing"] = fmt.Sprintf("%d crash cases (tier %s): %.1fs wall, %.1fs summed run time, %d workers",
+			len(lines), tier, time.Since(t0).Seconds(), busy.Seconds(), crashWorkers)
+	}
+}
+
+// ---------------------------------------------------------------------------
+// generator: small contract-abiding workloads (mutations only)
+
+type cgen struct {
+	r       *vh.Rand
+	ref     *ref
+	ops     []op
+	tag     uint64
+	term    [numNodes]uint64
+	bs      uint64
+	rem     bool // IMPORT allowed
+	remnode bool // REMNODE allowed (not for the tan kinds: known finding tan-removal-not-durable)
+	nmuts   int
+}
+
+func (g *cgen) nextTag() uint64 { g.tag++; return g.tag }
+
+func cmax(a, b uint64) uint64 {
+	if a > b {
+		return a
+	}
+	return b
+}
+
+func (g *cgen) elen() uint64 {
+	switch g.r.Intn(4) {
+	case 0:
+		return 8
+	case 1:
+		return uint64(8 + g.r.Intn(16))
+	default:
+		return uint64(8 + g.r.Intn(150))
+	}
+}
+
+func (g *cgen) count() int {
+	switch g.r.Intn(8) {
+	case 0:
+		return int(g.bs) - 2 + g.r.Intn(5) // around one batch
+	case 1:
+		return int(g.bs) + 1 + g.r.Intn(12) // crosses a batch boundary
+	case 2, 3:
+		return 1
+	default:
+		return 1 + g.r.Intn(6)
+	}
+}
+
+func (g *cgen) mkEnts(n int, i0 uint64, k int, bump bool) []ent {
+	g.term[n] = cmax(cmax(g.term[n], g.ref.nodes[n].lastTerm()), 1)
+	if bump {
+		g.term[n] += uint64(1 + g.r.Intn(2))
+	}
+	var es []ent
+	for i := 0; i < k; i++ {
+		es = append(es, ent{Index: i0 + uint64(i), Term: g.term[n], Tag: g.nextTag(), Len: g.elen()})
+	}
+	return es
+}
+
+func (g *cgen) maybeState(n int, u *update) {
+	if !g.r.Chance(2, 3) {
+		return
+	}
+	nd := &g.ref.nodes[n]
+	c := nd.marker
+	if l := nd.last() + uint64(len(u.Ents)); l > c {
+		c += uint64(g.r.Intn(int(l-c) + 1))
+	}
+	vote := uint64(1 + g.r.Intn(3))
+	if nd.st != nil && nd.st.Term == cmax(g.term[n], 1) && g.r.Chance(3, 4) {
+		vote = nd.st.Vote
+	}
+	u.St = hstate{Term: cmax(g.term[n], 1), Vote: vote, Commit: c}
+}
+
+func (g *cgen) appendUpdate(n int, overwrite bool) update {
+	nd := &g.ref.nodes[n]
+	u := update{N: n}
+	if overwrite && len(nd.ents) > 0 {
+		off := uint64(g.r.Intn(len(nd.ents)))
+		i0 := nd.marker + 1 + off
+		remaining := int(nd.last() - i0 + 1)
+		var k int
+		switch g.r.Intn(3) {
+		case 0: // shorter: truncates what follows
+			k = 1 + g.r.Intn(remaining)
+			if k == remaining && remaining > 1 {
+				k--
+			}
+		case 1:
+			k = remaining
+		default:
+			k = remaining + 1 + g.r.Intn(4)
+		}
+		if k > 60 {
+			k = 60
+		}
+		u.I0 = i0
+		u.Ents = g.mkEnts(n, i0, k, true)
+	} else {
+		u.I0 = nd.last() + 1
+		u.Ents = g.mkEnts(n, u.I0, g.count(), g.r.Chance(1, 6))
+	}
+	g.maybeState(n, &u)
+	return u
+}
+
+func (g *cgen) emit(o op) bool {
+	if !g.ref.wf(o) {
+		return false
+	}
+	g.ops = append(g.ops, o)
+	g.ref.apply(o)
+	g.nmuts++
+	return true
+}
+
+func (g *cgen) pickNode() int {
+	if g.r.Chance(1, 7) {
+		return 3
+	}
+	return g.r.Intn(3)
+}
+
+func (g *cgen) step() {
+	n := g.pickNode()
+	nd := &g.ref.nodes[n]
+	switch x := g.r.Intn(100); {
+	case x < 34:
+		g.emit(op{Kind: "SAVE", Ups: []update{g.appendUpdate(n, false)}})
+	case x < 46:
+		g.emit(op{Kind: "SAVE", Ups: []update{g.appendUpdate(n, true)}})
+	case x < 60: // hard state only; mostly a Commit-only change (not fsynced by tan)
+		u := update{N: n}
+		commit := nd.marker + uint64(g.r.Intn(len(nd.ents)+1))
+		if nd.st != nil && g.r.Chance(2, 3) {
+			u.St = hstate{Term: nd.st.Term, Vote: nd.st.Vote, Commit: commit}
+		} else {
+			t := cmax(cmax(g.term[n], nd.lastTerm()), 1) + uint64(g.r.Intn(2))
+			g.term[n] = t
+			u.St = hstate{Term: t, Vote: uint64(1 + g.r.Intn(3)), Commit: commit}
+		}
+		g.emit(op{Kind: "SAVE", Ups: []update{u}})
+	case x < 66: // locally created snapshot
+		s := nd.marker + uint64(g.r.Intn(len(nd.ents)+1))
+		ss := snap{Index: s, Term: 1 + uint64(g.r.Intn(5)), Tag: g.nextTag()}
+		if s == nd.ssidx() && nd.ss != nil {
+			ss = *nd.ss
+		}
+		g.emit(op{Kind: "SNAP", N: n, Ss: ss})
+	case x < 72: // snapshot received from the leader: the log restarts at its index
+		s := nd.last()
+		switch g.r.Intn(3) {
+		case 0:
+			s += uint64(g.r.Intn(3))
+		case 1:
+			s = (s/g.bs+1)*g.bs - 2 + uint64(g.r.Intn(4))
+		default:
+			s += uint64(1 + g.r.Intn(60))
+		}
+		g.term[n] = cmax(cmax(g.term[n], nd.lastTerm()), 1) + uint64(g.r.Intn(2))
+		u := update{N: n, Ss: snap{Index: s, Term: g.term[n], Tag: g.nextTag()}}
+		if g.r.Bool() {
+			u.I0 = s + 1
+			u.Ents = g.mkEnts(n, s+1, 1+g.r.Intn(4), false)
+		}
+		u.St = hstate{Term: g.term[n], Vote: uint64(1 + g.r.Intn(3)), Commit: s}
+		g.emit(op{Kind: "SAVE", Ups: []update{u}})
+	case x < 82:
+		idx := nd.marker + uint64(g.r.Intn(len(nd.ents)+1))
+		if g.r.Bool() && nd.ssidx() >= nd.marker && nd.ssidx() <= nd.last() {
+			idx = nd.ssidx()
+		}
+		g.emit(op{Kind: "REMTO", N: n, A: idx})
+	case x < 84:
+		if g.remnode && g.emit(op{Kind: "REMNODE", N: n}) {
+			g.term[n] = 0
+		}
+	case x < 86:
+		if g.rem {
+			s := 1 + uint64(g.r.Intn(int(nd.last())+20))
+			t := cmax(nd.lastTerm(), 1) + uint64(g.r.Intn(3))
+			if g.emit(op{Kind: "IMPORT", N: n, Ss: snap{Index: s, Term: t, Tag: g.nextTag()}}) {
+				g.term[n] = t
+			}
+		}
+	case x < 90:
+		g.emit(op{Kind: "REOPEN"})
+	default: // several replicas in one SaveRaftState call
+		var ups []update
+		for _, m := range []int{0, 1, 2} {
+			if g.r.Chance(2, 3) {
+				ups = append(ups, g.appendUpdate(m, g.r.Chance(1, 4)))
+			}
+		}
+		if len(ups) > 0 {
+			g.emit(op{Kind: "SAVE", Ups: ups})
+		}
+	}
+}
+
+func genCrashWorkload(r *vh.Rand, rem bool, remnode bool) []op {
+	g := &cgen{r: r, ref: newCrashRef(), bs: hooks.BatchSize(), rem: rem, remnode: remnode}
+	target := 4 + r.Intn(7)
+	for tries := 0; g.nmuts < target && tries < 200; tries++ {
+		g.step()
+	}
+	return g.ops
+}
+
+type crashWorkload struct {
+	kind string
+	mlfs int64
+	ops  []op
+	run  crashRun // the fault-free measuring run
+}
+
+func genCrashWorkloads(r *vh.Rand, perKind int, measure bool) []crashWorkload {
+	var ws []crashWorkload
+	for i := 0; i < perKind; i++ {
+		seed := r.U64()
+		mlfs := []int64{700, 700, 2048, 2048, 0}[r.Intn(5)]
+		for _, kind := range crashKinds {
+			// the same stream for every kind; tanmux never sees REMNODE / IMPORT
+			// (known finding there), its workload goes its own way from the first
+			// such choice on
+			w := crashWorkload{kind: kind, ops: genCrashWorkload(vh.NewRand(seed), kind != "tanmux", !isTanKind(kind))}
+			if isTanKind(kind) {
+				w.mlfs = mlfs
+			}
+			ws = append(ws, w)
+		}
+	}
+	if measure {
+		var wg sync.WaitGroup
+		sem := make(chan struct{}, crashWorkers)
+		for i := range ws {
+			wg.Add(1)
+			go func(w *crashWorkload) {
+				defer wg.Done()
+				sem <- struct{}{}
+				w.run = runCrash(w.kind, w.mlfs, w.ops, -1, true)
+				<-sem
+			}(&ws[i])
+		}
+		wg.Wait()
+	}
+	return ws
+}
+
+// pickCrashPoint chooses a crash point of a measured workload: mostly inside a
+// SAVE, around a tan log rollover (a *.log file is created inside the
+// workload), sometimes anywhere including the creation of the store.
+func pickCrashPoint(r *vh.Rand, w *crashWorkload) int {
+	total := w.run.total
+	if total <= 0 {
+		return r.Intn(40)
+	}
+	var saves, others, roll []int
+	for _, sp := range w.run.spans {
+		for k := sp.start; k < sp.end; k++ {
+			if sp.kind == "SAVE" {
+				saves = append(saves, k)
+			} else {
+				others = append(others, k)
+			}
+			if k < len(w.run.trace) && sp.kind != "REOPEN" && sp.kind != "IMPORT" {
+				if t := w.run.trace[k]; strings.HasPrefix(t, "create ") && strings.HasSuffix(t, ".log") {
+					for d := -3; d <= 8; d++ {
+						if k+d >= sp.start && k+d < total {
+							roll = append(roll, k+d)
+						}
+					}
+				}
+			}
+		}
+	}
+	pick := func(l []int) (int, bool) {
+		if len(l) == 0 {
+			return 0, false
+		}
+		return l[r.Intn(len(l))], true
+	}
+	x := r.Intn(100)
+	if x < 25 {
+		if k, ok := pick(roll); ok {
+			return k
+		}
+	}
+	if x < 70 {
+		if k, ok := pick(saves); ok {
+			return k
+		}
+	}
+	if x < 92 {
+		if k, ok := pick(others); ok {
+			return k
+		}
+		if k, ok := pick(saves); ok {
+			return k
+		}
+	}
+	return r.Intn(total)
+}
+
+func genCrashCases(r *vh.Rand, tier string, n int) []string {
+	var out []string
+	if n > 0 {
+		// budget override of a search mode: n random single-point cases
+		perKind := (n + 15) / 16
+		ws := genCrashWorkloads(r, perKind, true)
+		for i := 0; len(out) < n; i++ {
+			w := &ws[i%len(ws)]
+			k := pickCrashPoint(r, w)
+			out = append(out, crashLine(fmt.Sprintf("cr%d.%s.k%d", i, w.kind, k), w.kind, w.mlfs, strconv.Itoa(k), w.ops))
+		}
+		return out
+	}
+	if tier == "thorough" {
+		// (a crash run costs ~10 ms on the in-memory FS: far more than the ~6
+		// workloads a 50 ms Pebble open/close would allow fit the budget)
+		ws := genCrashWorkloads(r, 24, false)
+		for i := range ws {
+			w := &ws[i]
+			out = append(out, crashLine(fmt.Sprintf("cr%d.%s.all", i/len(crashKinds), w.kind), w.kind, w.mlfs, "all", w.ops))
+		}
+		return out
+	}
+	const pointsPerWorkload = 10 // x 4 workloads = 40 single crash points per kind
+	ws := genCrashWorkloads(r, 4, true)
+	for i := range ws {
+		w := &ws[i]
+		wi := i / len(crashKinds)
+		out = append(out, crashLine(fmt.Sprintf("cr%d.%s.none", wi, w.kind), w.kind, w.mlfs, "none", w.ops))
+		seen := map[int]bool{}
+		var ks []int
+		for tries := 0; len(ks) < pointsPerWorkload && tries < 100; tries++ {
+			if k := pickCrashPoint(r, w); !seen[k] {
+				seen[k] = true
+				ks = append(ks, k)
+			}
+		}
+		sort.Ints(ks)
+		for _, k := range ks {
+			out = append(out, crashLine(fmt.Sprintf("cr%d.%s.k%d", wi, w.kind, k), w.kind, w.mlfs, strconv.Itoa(k), w.ops))
+		}
+	}
+	return out
+}
